@@ -243,6 +243,9 @@ func (e *Ev) specCall(name string, n *ast.CallExpr) (Term, bool) {
 			s = app("sarr", a.S)
 		}
 		e.g().Pre.add("(declare-fun fresh$ (Int) Bool)")
+		if e.allocPred != "" {
+			return Term{S: app(e.allocPred, s), Sort: sBool, T: boolT}, true
+		}
 		return Term{S: app("fresh$", s), Sort: sBool, T: boolT}, true
 	case "inrange":
 		// inrange(x, lo, hi): lo <= x < hi on mathematical ints
